@@ -386,7 +386,13 @@ func (runInfo *runInfoStruct) makeCallArgs(rt reflect.Type, isRunVMFunction bool
 		numIn--
 	}
 	if numIn < 1 {
-		// no arguments needed
+		// no arguments needed, the ones given are evaluated all the same
+		for _, runInfo.expr = range callExpr.SubExprs {
+			runInfo.invokeExpr()
+			if runInfo.err != nil {
+				return nil, false
+			}
+		}
 		if isRunVMFunction {
 			// for runVMFunction first arg is always context
 			return []reflect.Value{reflect.ValueOf(runInfo.ctx)}, false
